@@ -4,7 +4,9 @@
 package main
 
 import (
+	"encoding/binary"
 	"fmt"
+	"hash/fnv"
 	"strings"
 	"time"
 
@@ -330,9 +332,64 @@ func runPath(c *cfg, path []uint16) (uint64, explore.Status) {
 	}
 	// the emulator's own state is part of the key as well: two emulators that look like the same reference
 	// terminal but differ in something the comparison does not show (saved cursors, flags) have different futures
-	snap := p.m.VerifSnapshot()
-	snap.Dirty, snap.Focused, snap.EventsLen, snap.TabStops = false, false, 0, nil
-	return explore.Hash(p.t.Dump(), fmt.Sprintf("%+v", snap)), explore.StOK
+	return explore.Hash(p.t.Dump(), fmt.Sprint(emuKey(p.m.VerifSnapshot()))), explore.StOK
+}
+
+// emuKey hashes the emulator's own state (everything but the raised events, the dirty / focus flags and
+// the tab stops, which no operation of this vocabulary reads).
+func emuKey(s term.VerifSnap) uint64 {
+	h := fnv.New64a()
+	var b [8]byte
+	num := func(vs ...int) {
+		for _, v := range vs {
+			binary.LittleEndian.PutUint64(b[:], uint64(int64(v)))
+			h.Write(b[:])
+		}
+	}
+	flag := func(vs ...bool) {
+		for _, v := range vs {
+			if v {
+				h.Write([]byte{1})
+			} else {
+				h.Write([]byte{0})
+			}
+		}
+	}
+	str := func(x string) { num(len(x)); h.Write([]byte(x)) }
+	style := func(st vaxis.Style) {
+		num(int(st.Foreground), int(st.Background), int(st.UnderlineColor), int(st.UnderlineStyle), int(st.Attribute))
+		str(st.Hyperlink)
+		str(st.HyperlinkParams)
+	}
+	num(s.Width, s.Height, s.ActiveRows, s.Row, s.Col, int(s.CursorStyle), s.Top, s.Bottom, s.Left, s.Right, s.CharsetSel, s.CharsetSaved, s.Graphics)
+	flag(s.AltActive, s.LastCol, s.SingleShift)
+	style(s.Pen)
+	for _, g := range [][][]term.VerifCell{s.Primary, s.Alt} {
+		num(len(g))
+		for _, row := range g {
+			num(len(row))
+			for _, c := range row {
+				str(c.Grapheme)
+				num(c.Width)
+				style(c.Style)
+				flag(c.Wrapped)
+			}
+		}
+	}
+	for _, l := range [][]int{s.ActiveRowLens, s.PrimaryRowLens, s.AltRowLens, s.Designations[:]} {
+		num(len(l))
+		num(l...)
+	}
+	for _, sv := range []term.VerifSaved{s.SavedPrimary, s.SavedAlt} {
+		num(sv.Row, sv.Col, sv.CharsetSel, sv.CharsetSaved)
+		num(sv.Designations[:]...)
+		flag(sv.Decawm, sv.Decom)
+		style(sv.Pen)
+	}
+	m := s.Modes
+	flag(m.Kam, m.Irm, m.Srm, m.Lnm, m.Decckm, m.Decanm, m.Deccolm, m.Decsclm, m.Decom, m.Decawm, m.Decarm, m.Dectcem, m.Deckpam, m.Deckpnm, m.Smcup, m.Paste,
+		m.MouseButtons, m.MouseDrag, m.MouseMotion, m.MouseSGR, m.Alt)
+	return h.Sum64()
 }
 
 func main() {
